@@ -317,6 +317,14 @@ fn run(ctx: &Ctx) -> Run {
                 run.count("neighbourhood.primed_with_a_relative");
             }
             check_point(run, lo, la, res, &cands, class, "lookups");
+            if i % 8 == 5 && cands.len() <= 64 {
+                // the public-API-only variant at every resolution: reported rings (16 segments per edge) of the same
+                // neighbourhood; exactly one must contain the point (or the point is within the ring band of one)
+                let rings: Vec<(u64, Vec<V3>)> = cands.iter().filter_map(|k| ring_units(encode(*k), 16).ok().map(|r| (encode(*k), r))).collect();
+                let refs: Vec<(u64, &Vec<V3>)> = rings.iter().map(|(i, r)| (*i, r)).collect();
+                check_point_rings(run, lo, la, res, &refs, class);
+                run.count("neighbourhood.ring_variant");
+            }
             run.count(&format!("neighbourhood.res{res:02}"));
             run.count(&format!("class.{class}"));
         }
